@@ -318,6 +318,61 @@ def check_mapnum_domain(prog: Program, res: Result) -> None:
                          f"map number written as `{norm(writes[0].args[0])}`")
 
 
+def check_parity_used(prog: Program, res: Result) -> None:
+    res.rule("R-PARITY-USED", "a decision of the export that is taken by "
+             "membership in the rotation orbit of a descriptor "
+             "(`x in d._perm_atoms()`, `x in set(d._perm_atoms())`) instead "
+             "of descriptor equality also reads that descriptor's parity: "
+             "the orbit alone cannot tell a chiral arrangement from its "
+             "mirror image")
+    fns = [prog.fn("graph2rdmol:stereo_mol_graph_to_rdmol")]
+    for q in prog.norm_report.get("new_functions", []):
+        if q.startswith("graph2rdmol:"):
+            fns.append(prog.functions[q])
+    n = 0
+    for fi in fns:
+        # locals that hold an orbit: name -> descriptor expression text
+        orbit_of: dict[str, str] = {}
+
+        def orbit_src(e):
+            for x in ast.walk(e):
+                if isinstance(x, ast.Call) and isinstance(
+                        x.func, ast.Attribute) and \
+                        x.func.attr == "_perm_atoms":
+                    return norm(x.func.value)
+            return None
+        for a in ast.walk(fi.node):
+            if isinstance(a, ast.Assign) and len(a.targets) == 1 and \
+                    isinstance(a.targets[0], ast.Name):
+                src = orbit_src(a.value)
+                if src:
+                    orbit_of[a.targets[0].id] = src
+        for c in ast.walk(fi.node):
+            if not (isinstance(c, ast.Compare) and len(c.ops) == 1
+                    and isinstance(c.ops[0], (ast.In, ast.NotIn))):
+                continue
+            right = c.comparators[0]
+            d = orbit_src(right) or (orbit_of.get(right.id) if isinstance(
+                right, ast.Name) else None)
+            if d is None:
+                continue
+            n += 1
+            inst = f"{fi.short}: `{norm(c, 70)}` also consults {d}.parity"
+            reads = any(isinstance(x, ast.Attribute) and x.attr == "parity"
+                        and norm(x.value) == d for x in ast.walk(fi.node))
+            if reads:
+                res.ok("R-PARITY-USED", inst, fi.loc(c))
+            else:
+                res.bad("R-PARITY-USED", f"{fi.short}: {norm(c, 70)}",
+                        fi.loc(c), f"{fi.short}: `{norm(c, 70)}` decides by "
+                        f"the rotation orbit of `{d}` and `{d}.parity` is "
+                        "never read in this function: a parity -1 descriptor "
+                        "gets the label of its mirror image", instance=inst)
+    if n == 0:
+        res.ok("R-PARITY-USED", "no decision by orbit membership in the "
+               "exporter (labels are chosen by descriptor equality)")
+
+
 def run(prog: Program, res: Result, tier: str) -> None:
     res.rule("T-ROUNDTRIP", "for every stored descriptor (all orderings of "
              "the ligands relative to RDKit's neighbour order, every parity) "
@@ -336,6 +391,7 @@ def run(prog: Program, res: Result, tier: str) -> None:
     check_ez_roundtrip(prog, res, G)
     check_optional_label(prog, res)
     check_mapnum_domain(prog, res)
+    check_parity_used(prog, res)
     # ---------------------------------------------------------------- SP, TB
     # bond rewriting inside the export invalidates the neighbour order that
     # tags of OTHER atoms were (or will be) computed against
